@@ -597,9 +597,109 @@ pub fn c05(rec: &mut Rec, lm: &Landmarks, rng: &mut Rng, thorough: bool) {
     }
 }
 
+fn jleap(ls: &hifitime::leap_seconds::LeapSecond) -> String {
+    format!("{{\"t\":{},\"d\":{},\"iers\":{}}}", jf64(ls.timestamp_tai_s), jf64(ls.delta_at), jbool(ls.announced_by_iers))
+}
+
+fn jopt_f64(r: &Result<Option<f64>, String>) -> String {
+    match r {
+        Ok(Some(x)) => format!("{{\"some\":{}}}", jf64(*x)),
+        Ok(None) => "{\"none\":true}".to_string(),
+        Err(m) => jpanic(m),
+    }
+}
+
+pub const LEAP_FILE: &str = "/repo/data/leap-seconds.list";
+pub const NAIF_FILE: &str = "/repo/naif0012.txt";
+
+/// the table as the providers expose it: forward, backward, indexed; built-in and IERS file; NAIF kernel
+pub fn leap_dumps(rec: &mut Rec) {
+    use hifitime::leap_seconds::{LatestLeapSeconds, LeapSecondsFile};
+    let dump = |rec: &mut Rec, src: &str, r: Result<Vec<String>, String>| {
+        rec.episode();
+        let body = match r {
+            Ok(v) => format!("\"src\":\"{}\",\"res\":{{\"v\":[{}]}}", src, v.join(",")),
+            Err(m) => format!("\"src\":\"{}\",\"res\":{}", src, jpanic(&m)),
+        };
+        rec.ev("leap_dump", body, true);
+    };
+    dump(rec, "builtin_fwd", catch(|| LatestLeapSeconds::default().map(|l| jleap(&l)).collect()));
+    dump(rec, "builtin_rev", catch(|| LatestLeapSeconds::default().rev().map(|l| jleap(&l)).collect()));
+    dump(rec, "builtin_idx", catch(|| {
+        let p = LatestLeapSeconds::default();
+        (0..42).map(|i| jleap(&p[i])).collect()
+    }));
+    dump(rec, "file_fwd", catch(|| LeapSecondsFile::from_path(LEAP_FILE).unwrap().map(|l| jleap(&l)).collect()));
+    dump(rec, "file_rev", catch(|| LeapSecondsFile::from_path(LEAP_FILE).unwrap().rev().map(|l| jleap(&l)).collect()));
+    dump(rec, "file_idx", catch(|| {
+        let p = LeapSecondsFile::from_path(LEAP_FILE).unwrap();
+        let n = p.clone().count();
+        (0..n).map(|i| jleap(&p[i])).collect()
+    }));
+    // the NAIF kernel shipped with the sources: DELTET/DELTA_AT = ( delta, @YYYY-MON-D ... )
+    let txt = std::fs::read_to_string(NAIF_FILE).unwrap_or_default();
+    let mut items: Vec<String> = Vec::new();
+    if let Some(pos) = txt.find("DELTET/DELTA_AT") {
+        let tail = &txt[pos..];
+        let end = tail.find(')').unwrap_or(tail.len());
+        let body = &tail[tail.find('(').map(|x| x + 1).unwrap_or(0)..end];
+        let toks: Vec<&str> = body.split(|c: char| c == ',' || c.is_whitespace()).filter(|t| !t.is_empty()).collect();
+        let months = ["JAN", "FEB", "MAR", "APR", "MAY", "JUN", "JUL", "AUG", "SEP", "OCT", "NOV", "DEC"];
+        let mut i = 0;
+        while i + 1 < toks.len() {
+            let delta: i64 = toks[i].parse().unwrap_or(-1);
+            let date = toks[i + 1].trim_start_matches('@');
+            let parts: Vec<&str> = date.split('-').collect();
+            if parts.len() == 3 {
+                let y: i64 = parts[0].parse().unwrap_or(0);
+                let mo = months.iter().position(|m| *m == parts[1]).map(|p| p as i64 + 1).unwrap_or(0);
+                let d: i64 = parts[2].parse().unwrap_or(0);
+                items.push(format!("{{\"d\":{delta},\"y\":{y},\"mo\":{mo},\"day\":{d}}}"));
+            }
+            i += 2;
+        }
+    }
+    rec.episode();
+    rec.ev("leap_naif", format!("\"res\":{{\"v\":[{}]}}", items.join(",")), true);
+}
+
+impl<'a> EM<'a> {
+    /// leap_seconds(true), leap_seconds_iers() and leap_seconds_with(file provider) on the register
+    pub fn leap_query(&mut self) {
+        use hifitime::leap_seconds::{LatestLeapSeconds, LeapSecondsFile};
+        let a = self.e;
+        let b = catch(|| a.leap_seconds(true));
+        let w = catch(|| a.leap_seconds_with(true, LatestLeapSeconds::default()));
+        let f = catch(|| a.leap_seconds_with(true, LeapSecondsFile::from_path(LEAP_FILE).unwrap()));
+        let i = catch(|| a.leap_seconds_iers());
+        let ii = match i {
+            Ok(x) => format!("{{\"v\":{x}}}"),
+            Err(m) => jpanic(&m),
+        };
+        self.rec.ev(
+            "leap_query",
+            format!("\"builtin\":{},\"with\":{},\"file\":{},\"iers_i32\":{}", jopt_f64(&b), jopt_f64(&w), jopt_f64(&f), ii),
+            true,
+        );
+    }
+}
+
 pub fn c06(rec: &mut Rec, lm: &Landmarks, rng: &mut Rng, thorough: bool) {
     let g = EpGen::new(lm, thorough);
+    leap_dumps(rec);
     let mut m = EM::new(rec);
+    // the providers answer identically: built-in table and IERS file, around every entry and elsewhere
+    for (k, &x) in g.leaps.iter().enumerate() {
+        if !thorough && k % 5 != 0 {
+            continue;
+        }
+        m.eload_dur(if k % 2 == 0 { TimeScale::TAI } else { TimeScale::UTC }, ns_dur(x));
+        m.leap_query();
+    }
+    for x in [-1i128, 0, 1_893_369_600, 2_000_000_000, 2_272_060_799, 2_272_060_800, 2_287_785_599, 2_287_785_600, 3_692_217_599, 3_692_217_600, 4_000_000_000, 9_000_000_000] {
+        m.eload_dur(TimeScale::TAI, ns_dur(x * NS_S as i128));
+        m.leap_query();
+    }
     // the windows around every table entry, both directions, round trips
     for (k, &x) in g.leaps.iter().enumerate() {
         m.eload_dur(TimeScale::UTC, ns_dur(x));
